@@ -5,7 +5,7 @@ CONSTANTS
   JunkBytes <- MCJunk
   RegistryOps = FALSE
   Receivers = TRUE
-  OpSet <- RcvOps
+  OpSet <- RcvOpsP
 CHECK_DEADLOCK FALSE
 
 INVARIANT Export
